@@ -33,6 +33,16 @@ PREV = """
 {n} previous participants already produced the following changes for this property; yours must use a DIFFERENT mechanism from all of them, touch a different part of the behaviour the property describes (read the statement clause by clause and the whole quantifier, and pick a clause, input class, configuration or code path none of them used - including code outside the anchored files that the property's behaviour passes through), and need a different trigger:
 """
 
+HARD = """
+The people whose checks you are testing drive the real code with generated inputs (random and small-exhaustive), generated
+thread schedules and injected faults, and compare with small reference models. Choose a trigger that such generic
+generation is unlikely to produce by accident: a setting that is rarely varied (look through conf.py's defaults and the
+example configuration for options that interact with this behaviour), the interaction of two features that are each fine
+alone, a long or oddly ordered multi-step history, a specific magnitude or boundary value, a second entry point into the
+same behaviour (another listener, another router, another caller), or an effect that only shows in a secondary observation
+(a counter, an event, what a later operation sees) while the primary result stays right.
+"""
+
 TAIL = """
 Also write a DEMONSTRATION: a small standalone Python program (or unittest) {wt}/demo_{pid}.py that, run as `PYTHONPATH={wt}/lib /venv/bin/python {wt}/demo_{pid}.py`, exits non-zero (fails) WITH your change and exits 0 (passes) on the unchanged code. It must be deterministic (for thread interleavings, force the schedule with events/hooks/monkeypatching inside the demo rather than relying on luck), must not depend on its own file location (it will be copied elsewhere and run with PYTHONPATH pointing at another checkout), and finish within 60 seconds. Verify both directions yourself.
 
@@ -53,6 +63,8 @@ def main():
     text += PREV.format(n=len(prev))
     for p in prev:
       text += '--- previous change %s ---\n%s\n' % (os.path.basename(os.path.dirname(p)).split('-')[1], open(p).read().strip())
+  if len(prev) >= 4:
+    text += HARD
   text += TAIL.format(wt=wt, pid=pid)
   open(out, 'w').write(text)
 
